@@ -641,6 +641,17 @@ func runC03(c *rt.Ctx) {
 		collisionHistories(c, texts, 300, 200, func(w *rt.W, t string) { c03Case(w, t, true) })
 	}
 
+	// the version as other layers spell it (quoted, bracketed, escaped, padded, doubled, other scripts): not the version
+	c.Parallel("decorated", 0, func(w *rt.W) {
+		bases := []string{"1.2.3", "v1.2.3", "0.0.0", "v10.20.30-rc.1+b7", "1.0.0-alpha", "1.0.0+001", "18446744073709551615.0.1", "v0.0.1-0.a.-"}
+		for bi := w.Shard; bi < len(bases); bi += w.NShards {
+			for _, d := range decorate(bases[bi]) {
+				c03Case(w, d, true)
+				w.ClassN("decorated-valid-text", 1)
+			}
+		}
+	})
+	c.Require("decorated-valid-text", 800)
 	coldStart(c, "C03", 14)
 
 	nVer := c.Pick(1000000, 10000000)
